@@ -405,6 +405,66 @@ class swv_over_drifting_input:
                         yield {"n": n, "chunks": ch, "w1": w1, "w2": w2}
 
 
+@contract("dask_array/io/_from_array.py::FromArray._with_chunks", spec="custom-getitem", props=["C24"])
+class from_array_custom_getitem:
+    """from_array(src, getitem=g): every read goes through g -- whatever rewrites (rechunk, slice, alignment with another
+    operand, their compositions) were absorbed into the read -- and returns exactly NumPy's elements of the decoded data"""
+    bounded_only = True
+    params = {"chunks": "const", "post": "const"}
+    scope = "an encoded 1-D / 2-D store readable only through its decoding getitem; 9 compositions of rechunk / slice / alignment"
+
+    def real():
+        return lambda: None
+
+    def call(fn, chunks, post):
+        import numpy as np
+        import dask_array as da
+        two_d = isinstance(chunks, tuple) and len(chunks) == 2
+        data = np.arange(24.0).reshape(4, 6) if two_d else np.arange(24.0)
+        enc = data * 2 + 7       # what the store holds
+        calls = []
+
+        class Store:
+            shape = enc.shape
+            dtype = enc.dtype
+            ndim = enc.ndim
+
+            def __getitem__(self, idx):
+                return enc[idx]  # raw, encoded
+
+        def decode(store, idx, *a, **k):
+            calls.append(idx)
+            return (enc[idx] - 7) / 2
+
+        x = da.from_array(Store(), chunks=chunks, getitem=decode, name="enc-" + repr((chunks, post)))
+        other = da.from_array(np.ones(data.shape), chunks=data.shape)
+        ops = {"plain": lambda a: a, "rechunk": lambda a: a.rechunk(5 if not two_d else (3, 4)),
+               "rechunk-slice": lambda a: a.rechunk(5 if not two_d else (3, 4))[1:],
+               "slice-rechunk": lambda a: a[2:].rechunk(4 if not two_d else (1, 6)),
+               "rechunk-rechunk": lambda a: a.rechunk(5 if not two_d else (3, 4)).rechunk(3 if not two_d else (2, 2)),
+               "aligned-with-other": lambda a: a + other, "slice": lambda a: a[1:-1], "slice-slice": lambda a: a[1:][2:],
+               "rechunk-sum": lambda a: a.rechunk(7 if not two_d else (4, 2)).sum()}
+        y = ops[post](x)
+        del calls[:]
+        got = np.asarray(y.compute(scheduler="sync"))
+        refs = dict(ops, **{"rechunk": lambda a: a, "rechunk-slice": lambda a: a[1:], "slice-rechunk": lambda a: a[2:],
+                            "rechunk-rechunk": lambda a: a, "aligned-with-other": lambda a: a + 1, "rechunk-sum": lambda a: a.sum()})
+        return got, np.asarray(refs[post](data)), len(calls)
+
+    def requires(chunks, post):
+        return True
+
+    def ensures(result, chunks, post):
+        got, want, ncalls = result
+        return {"values-are-the-decoded-elements": _same(got, want), "reads-go-through-the-custom-getitem": ncalls >= 1}
+
+    def domain(tier, rng):
+        for chunks in ((6,), (4,), (2, 3), (4, 6)):
+            for post in ("plain", "rechunk", "rechunk-slice", "slice-rechunk", "rechunk-rechunk", "aligned-with-other", "slice",
+                         "slice-slice", "rechunk-sum"):
+                yield {"chunks": chunks, "post": post}
+
+
 @contract("dask_array/io/_from_array.py::FromArray._layer", spec="lock-held-during-reads", props=["C10"])
 class from_array_lock_held:
     """from_array(src, lock=L): every read of the source -- whatever rewrites moved into the read (a slice kept as a
@@ -1380,6 +1440,14 @@ class map_blocks_block_info_multi:
                     if key not in seen:
                         seen.add(key)
                         yield {"case": (kind, drop, new), "xch": xch, "ych": ych}
+                    if kind == "full":
+                        # the same shape and the same number of blocks per axis, but cut at other places: map_blocks pairs
+                        # blocks by position, and every input's block_info entry must describe that input's own layout
+                        ych2 = tuple(tuple(reversed(c)) for c in xch)
+                        key = (kind, drop, new, xch, ych2)
+                        if ych2 != xch and key not in seen and drop is None and new is None:
+                            seen.add(key)
+                            yield {"case": (kind, drop, new), "xch": xch, "ych": ych2}
         for drop in (None, 0, 1, 2):
             for ych in (((4,), (6,)), ((2, 2), (3, 3)), ((1, 3), (6,))):
                 yield {"case": ("3d", drop, None), "xch": ((1, 1),) + ych, "ych": ych}
@@ -2318,6 +2386,29 @@ class windows_numpy:
             f = lambda blk: blk * 2 + 1
             y = x.map_overlap(f, depth=depth, boundary=bnd, dtype="f8")
             return np.asarray(y.compute()), d * 2 + 1
+        if op.startswith("halo-"):
+            # a block function that USES its halo (centred window sum), the full result against np.pad, and slices of the
+            # lazy result -- near both edges, inside, touching an edge -- against slices of the full result
+            b = op[5:]
+            bnd = {"none": "none", "reflect": "reflect", "periodic": "periodic", "nearest": "nearest", "const": 0.0}[b]
+            mode = {"none": ("constant", {}), "reflect": ("symmetric", {}), "periodic": ("wrap", {}), "nearest": ("edge", {}),
+                    "const": ("constant", {})}[b]
+            depth = w
+            if min(chunks) < depth or (b in ("reflect", "periodic") and len(d) < depth):
+                return None, None
+            kern = np.ones(2 * depth + 1)
+            f = lambda blk: np.convolve(blk, kern, mode="same")
+            y = x.map_overlap(f, depth=depth, boundary=bnd, dtype="f8")
+            ref = swv(np.pad(d, depth, mode=mode[0], **mode[1]), 2 * depth + 1).sum(-1)
+            full = np.asarray(y.compute())
+            if not _same(full, ref):
+                return full, ref
+            n = len(d)
+            for a_, b_ in ((1, 7), (2, 8), (1, 3), (0, 4), (5, n), (3, 6), (1, n), (0, n - 1), (n - 2, n), (2, n - 1)):
+                got = np.asarray(x.map_overlap(f, depth=depth, boundary=bnd, dtype="f8")[a_:b_].compute())
+                if not _same(got, ref[a_:b_]):
+                    return got, ref[a_:b_]
+            return full, ref
         if op == "diff":
             return np.asarray(da.diff(x, n=min(w, 3)).compute()), np.diff(d, n=min(w, 3))
         if op in ("cumsum", "cumprod"):
@@ -2363,10 +2454,11 @@ class windows_numpy:
         if tier == "quick":
             lays = rng.sample(lays, 14) + [(9,), (3, 3, 3), (1, 1, 7), (2, 2, 2, 3)]
         ops = ["swv", "swv-multi", "swv-sum", "swv-max", "swv-mean", "swv-min", "overlap-none", "overlap-reflect", "overlap-periodic",
-               "overlap-nearest", "overlap-const", "diff", "cumsum", "cumprod", "gradient"]
+               "overlap-nearest", "overlap-const", "halo-none", "halo-reflect", "halo-periodic", "halo-nearest", "halo-const",
+               "diff", "cumsum", "cumprod", "gradient"]
         for c in lays:
             for op in ops:
-                ws = (range(2, 5) if op == "swv-multi" else range(1, 7)) if op.startswith("swv") else ((1, 2) if op.startswith("overlap") or op == "diff" else (1,))
+                ws = (range(2, 5) if op == "swv-multi" else range(1, 7)) if op.startswith("swv") else ((1, 2) if op.startswith("overlap") or op == "diff" else ((1, 2, 3) if op.startswith("halo") else (1,)))
                 for w in ws:
                     yield {"op": op, "chunks": c, "w": w}
         for nblk in range(1, 35 if tier == "quick" else 70):
